@@ -48,6 +48,19 @@ fn dispatch(op: &str, a: &[&str]) -> Option<String> {
         "twfind" => twfind(a),
         "prestate" => crate::ops2::prestate(a),
         "ppreal" => crate::ops2::ppreal(a),
+        "memchr" => crate::ops3::memchr_op(a, false),
+        "memchrd" => crate::ops3::memchr_op(a, true),
+        "count" => crate::ops3::count_op(a, false),
+        "countd" => crate::ops3::count_op(a, true),
+        "iter" => crate::ops3::iter_op(a, false),
+        "iterd" => crate::ops3::iter_op(a, true),
+        "find" => crate::ops3::find_op(a),
+        "fnew" => crate::ops3::fnew_op(a),
+        "rfind" => crate::ops3::rfind_op(a),
+        "oneshot" => crate::ops3::oneshot_op(a),
+        "finditer" => crate::ops3::finditer_op(a),
+        "rfinditer" => crate::ops3::rfinditer_op(a),
+        "finderops" => crate::ops3::finderops_op(a),
         _ => None,
     }
 }
